@@ -246,6 +246,7 @@ type Job struct {
 	Fuel        int        `json:"fuel"`
 	Histories   [][]string `json:"histories,omitempty"`
 	HistoryMode string     `json:"history_mode,omitempty"`
+	Repeat      int        `json:"repeat,omitempty"`
 }
 
 type Out struct {
